@@ -61,50 +61,6 @@ pub fn adversarial_regs(rng: &mut Rng) -> Regs {
     r
 }
 
-/// Registers changed so that the first memory operand (bracketed or data label) of `ins` lies on the end of the
-/// 1 MB space: its first byte at FFFFFh, FFFFEh, 00000h (segment * 16 + offset = 100000h) or 00001h.  A base or
-/// index register is nudged to give the offset the right low nibble; the operand's segment register (override,
-/// SS for BP-based forms, DS otherwise) is then set to match.  Left alone when that is impossible.
-pub fn edge_place(ins: &Ins, regs: &Regs, k: u64) -> Regs {
-    let opnds: Vec<&Opnd> = match ins {
-        Ins::BinArith { dst, src, .. } | Ins::Logic { dst, src, .. } | Ins::Mov { dst, src, .. } | Ins::Lea { dst, src } => vec![dst, src],
-        Ins::Xchg { a, b, .. } => vec![a, b],
-        Ins::Not { dst, .. } | Ins::Shift { dst, .. } | Ins::UnArith { dst, .. } | Ins::Pop { dst } => vec![dst],
-        Ins::Push { src } => vec![src],
-        _ => vec![],
-    };
-    let mut r = *regs;
-    let target: u32 = [0xFFFFFu32, 0xFFFFE, 0x100000, 0x100001][(k % 4) as usize];
-    for o in opnds {
-        let (segreg, off): (&str, u32) = match o {
-            Opnd::Mem { seg, base, index, disp, .. } => {
-                let sr: &str = if !seg.is_empty() { seg } else if *base == "bp" { "ss" } else { "ds" };
-                let mut off = (*disp as i64).rem_euclid(65536) as u32;
-                if !base.is_empty() { off = (off + r.get(base) as u32) % 65536; }
-                if !index.is_empty() { off = (off + r.get(index) as u32) % 65536; }
-                // nudge a register of the operand so that the offset gets the low nibble of the target
-                let want = target % 16;
-                let delta = (want + 16 - off % 16) % 16;
-                let tweak: &str = if !index.is_empty() { index } else { base };
-                if !tweak.is_empty() && delta != 0 {
-                    r.set(tweak, r.get(tweak).wrapping_add(delta as u16));
-                    off = (off + delta) % 65536;
-                }
-                (sr, off)
-            }
-            Opnd::Label { off, .. } => ("ds", *off),
-            _ => continue,
-        };
-        // a label's offset cannot be nudged: take the target its low nibble allows
-        let target = if matches!(o, Opnd::Label { .. }) { match off % 16 { 15 => 0xFFFFF, 14 => 0xFFFFE, 0 => 0x100000, 1 => 0x100001, _ => target } } else { target };
-        if target >= off && (target - off) % 16 == 0 && (target - off) / 16 <= 0xFFFF {
-            r.set(segreg, ((target - off) / 16) as u16);
-        }
-        break;
-    }
-    r
-}
-
 struct Batch<'a> {
     asm: &'a Asm,
     mach: &'a mut Mach,
@@ -119,11 +75,6 @@ impl<'a> Batch<'a> {
     fn one(&mut self, key: &str, ins: &Ins, sp: &Spelling, regs: &Regs, flags: u16, stack: &[usize]) {
         let seed = self.seed();
         self.n += 1;
-        // every fourth case: move the memory operand onto the end of the 1 MB space (see edge_place)
-        let placed;
-        // (data-label operands, whose offset cannot be nudged, every second case)
-        let has_label = format!("{:?}", ins).contains("Label {");
-        let regs = if self.n % 4 == 0 || (has_label && self.n % 2 == 0) { placed = edge_place(ins, regs, self.n / 2); &placed } else { regs };
         let evs = run_one(self.asm, self.mach, ins, sp, regs, flags, seed, &[], stack);
         self.sh.count(key, 1);
         self.sh.unit(&evs);
@@ -383,6 +334,31 @@ pub fn gen_c05(asm: &Asm, mach: &mut Mach, rng: &mut Rng, sh: &mut Shards, thoro
             b.one(k, &ins, &rand_spelling(rng), &regs, rng.u16(), &[]);
         }
     }
+    // PUSH / POP of a memory operand whose word lies -2 .. 2 bytes from the stack word, for every operand kind, in the
+    // middle of memory, at the end of the 1 MB space and across a segment end
+    crate::gen::PLACE.store(false, std::sync::atomic::Ordering::Relaxed);
+    for round in 0..(reps.max(2) as u64) {
+        for (ds, off) in [(0x2000u16, 0x0100u32), (0xFFFF, 0x000E), (0xFFFF, 0x000F), (0xF000, 0xFFFF), (0x1234, 0xFFFE), (0x0000, 0x0001)] {
+            for form in 0..4usize {
+                for k in 0..5u64 {
+                    for push in [true, false] {
+                        let mut regs = stress_regs(rng);
+                        regs.ds = ds;
+                        let o = match form {
+                            0 => Opnd::Label { name: format!("vl{}", off), off },
+                            1 => Opnd::Mem { seg: "", base: "", index: "", disp: off as i32, has_disp: true },
+                            2 => { regs.bx = off as u16; Opnd::Mem { seg: "", base: "bx", index: "", disp: 0, has_disp: false } }
+                            _ => { regs.si = (off as u16).wrapping_sub(3); regs.es = ds; Opnd::Mem { seg: "es", base: "", index: "si", disp: 3, has_disp: true } }
+                        };
+                        let ins = if push { Ins::Push { src: o } } else { Ins::Pop { dst: o } };
+                        let regs = crate::gen::stack_place(&ins, &regs, k * 2 + (round % 2));
+                        b.one(if push { "push:mem-overlap" } else { "pop:mem-overlap" }, &ins, &rand_spelling(rng), &regs, rng.u16(), &[]);
+                    }
+                }
+            }
+        }
+    }
+    crate::gen::PLACE.store(true, std::sync::atomic::Ordering::Relaxed);
     // LAHF/SAHF/PUSHF/POPF under every low flag byte; XLAT with BX+AL crossing FFFFh
     for lo in 0..256u16 {
         for op in ["lahf", "sahf", "pushf", "popf"] {
@@ -893,6 +869,34 @@ pub fn gen_shapes(asm: &Asm, mach: &mut Mach, rng: &mut Rng, sh: &mut Shards, pa
         n += 1;
     }
     sh.count("shapes", n);
+    // names: every kind of name the grammar describes (letters, digits, underscores, either case, long) must work in
+    // every role; a name with characters outside that alphabet may be refused, but if it is accepted it must run
+    let plain = ["_", "_1", "a_b9", "Z", "l0ng_Name_With_Digits_0123456789_and_more", "x"];
+    let exotic = ["f\u{ed}n", "a\u{f1}adir", "l\u{663}", "gr\u{f6}\u{df}e", "na\u{ef}ve_1", "q\u{2160}", "k\u{a0}"];
+    for (names, may_refuse) in [(&plain[..], false), (&exotic[..], true)] {
+        for name in names {
+            let cases: Vec<Ins> = vec![
+                Ins::Jcc { mn: "jmp", label: name.to_string(), target: 1 },
+                Ins::Jcc { mn: "loop", label: name.to_string(), target: 0 },
+                Ins::Call { name: name.to_string(), target: 0 },
+                Ins::Mov { w: 8, dst: Opnd::Reg8("al"), src: Opnd::Label { name: name.to_string(), off: 4 } },
+                Ins::UnArith { op: "inc", w: 16, dst: Opnd::Label { name: name.to_string(), off: 6 } },
+                Ins::Mov { w: 16, dst: Opnd::Reg16("bx"), src: Opnd::Offset { name: name.to_string(), off: 6 } },
+            ];
+            for ins in cases {
+                let sp = Spelling::default();
+                if may_refuse && assemble_ins(asm, &ins, &sp).is_err() {
+                    sh.count("exotic-name-refused", 1);
+                    continue;
+                }
+                let regs = stress_regs(rng);
+                let stack: Vec<usize> = Vec::new();
+                let evs = run_one(asm, mach, &ins, &sp, &regs, rng.u16(), (n % 251) as i64, &[], &stack);
+                sh.count(if may_refuse { "exotic-name-accepted" } else { "name" }, 1);
+                sh.unit(&evs);
+            }
+        }
+    }
 }
 
 // ---------------------------------------------------------------------------------------------
